@@ -26,8 +26,8 @@ CHECKS = {
              text="Systems wrapped in Choice (every position of 1-3 level nestings), RegisterActor::Server, WORegisterActor::Server and scripted Vec clients must have exactly the reachable graph that ActorSystem.tla assigns to the unwrapped tables (messages, timers, cancel, random choices all used).",
              note="adapter tag is stripped by the projection after being checked", ref="4/C15"),
  "C04": dict(technique="TLA+ judge over recorded hasher byte streams of all reachable states (stream is an injective function of the abstract state) + real BFS/DFS unique counts vs TLC's distinct-state count",
-             text="For every reachable state of generated actor systems the byte stream fed to the Hasher is recorded; TLC judges that equal abstract states give equal streams and distinct ones distinct streams, and that the real checkers count exactly the distinct states TLC finds on the specification.",
-             note="64-bit collisions of the final ahash are out of scope; value-level enumeration of containers is in the thorough tier (Identity.tla)", ref="4/C04"),
+             text="For every reachable state of generated actor systems the byte stream fed to the Hasher is recorded; TLC judges that equal abstract states give equal streams and distinct ones distinct streams, and that the real checkers count exactly the distinct states TLC finds on the specification. Equality (==) is observed as well: every pair of container values of a category is compared in both orders and real states are compared with stored states of the same and of other abstract states; the recorded projection is canonical (no empty flow, no random-choice key without alternatives) and the code is required to keep its states canonical too. Identity.tla judges 14 categories of container / clock / network / tester values built in several concrete ways.",
+             note="64-bit collisions of the final ahash are out of scope", ref="4/C04"),
  "C08": dict(technique="TLA+ definition-level spec of linearizability (existence of a legal total order by exhaustive search, Consistency.tla); TLC enumerates all histories within bounds (MCHistories) which are replayed into the real tester and judged by TLC",
              text="Every history within the bounds (2-3 threads, up to 5-7 events, register / write-once register / stack alphabets incl. mismatched return kinds and ill-formed steps) is generated by TLC, replayed into LinearizabilityTester, and its verdict, returned serialization, Ok/Err results and len are judged by TLC against the definition; exhaustive within the bounds.",
              note="bounded histories; theorems LinImpliesSC and prefix-closure are checked on the same enumeration to validate the definition", ref="4/C08"),
@@ -39,18 +39,18 @@ CHECKS = {
              note="exhaustive only within the component bounds", ref="4/C20"),
  "C10": dict(technique="TLC-checked theorems of Symmetry.tla + TLC judge of from_values_to_sort/reindex/rewrite and of representative() on every reachable state of real actor systems + real symmetric DFS/simulation runs judged against the unreduced graph semantics",
              text="Stable-sort plan, reindex and 13 Rewrite impls are judged on all vectors with ties / all plans of size <=4; representative() of every recorded state of generated actor systems equals Permute(stable plan) of ActorSystem.tla; spawn_dfs with symmetry on generated symmetric process-vector models gives exact always/sometimes verdicts, covers every orbit, evaluates no more states than the unreduced graph has, and reports real paths.",
-             note="table systems carry ids only in envelope endpoints; symmetric models have 2-3 processes", ref="4/C10"),
+             note="symmetric models have 2-3 processes; Id-carrying table systems (local states, payloads, random values with Rewrite impls) exercise embedded Ids; Checker.tla with Symmetry = TRUE is model-checked for 1-2 workers (the enqueue-the-representative variant fails) and predicts real symmetric DFS runs step by step; examples/increment_lock.rs with .symmetry() must count exactly TLC's orbits", ref="4/C10"),
  "C05": dict(technique="TLC model checking of JobMarket.tla (safety, deadlock freedom, termination, stop propagation under fairness; 1-3 workers + timeout thread) + TLA+ trace validation of the real job market's event log (hooks) against JobMarketTrace.tla + big-graph runs judged against Graph!Reach",
-             text="All interleavings of the lock-level protocol are explored by TLC on the spec (no job lost or duplicated, close only when idle, no lost wake-up, termination, a stop reason reaches every worker). The implementation is bound to it by validating, line by line, the event log emitted inside every critical section of the real JobBroker - scripted multi-thread scenarios and real bfs/dfs/on-demand runs with 1-16 threads and schedule perturbation on graphs of thousands of states - and by judging each run's visited set, counts and verdicts against the graph semantics; finish/target/panic stop reasons included.",
+             text="All interleavings of the lock-level protocol are explored by TLC on the spec (no job lost or duplicated, close only when idle, no lost wake-up, termination, a stop reason reaches every worker). The implementation is bound to it by validating, line by line, the event log emitted inside every critical section of the real JobBroker - scripted multi-thread scenarios and real bfs/dfs/on-demand runs with 1-16 threads and schedule perturbation on graphs of thousands of states - and by judging each run's visited set, counts and verdicts against the graph semantics; finish/target/panic stop reasons included (also when the caller waits with join_and_report; after a panic the model counts the evaluations begun by the other workers; on-demand runs with unservable requests queued before run_to_completion).",
              note="real interleavings are sampled; parking_lot primitives trusted; DashMap insert-if-absent races are covered at outcome level (exactly-once visits)", ref="4/C05"),
  "C12": dict(technique="TLC judge of HasDiscoveries::matches on the whole bounded domain + observation validation of runs over finish/target/depth/seed configurations (CheckerObs) + JobMarket.tla BoundedDelay (design) + timed timeout runs and market-log validation judged by TLC",
              text="matches() agrees with HasDiscoveries.tla on every property list <=3 x discovery subset x variant; real runs of all strategies x finish conditions x targets x depth limits x threads stop early only with a reason, reach the target unless exhausted, never evaluate beyond the depth limit (1-thread BFS evaluates everything nearer), replay the first simulation trace for a seed; timeouts stop every thread count within expiry + poll + slack on an unbounded model, and an unexpired timeout leaves counts and progress unchanged with the timeout thread never sleeping under the market lock.",
              note="wall-clock bounds include slack; OS timing is sampled", ref="4/C12"),
  "C16": dict(technique="TLC model checking of OrderedReliableLink.tla (all drop/duplicate/reorder/retransmission interleavings) + TLC judge of the property predicates on every reachable state of the real link-wrapped ActorModel + transition conformance with the protocol spec",
-             text="The link protocol is model-checked for scripted systems (prefix / acknowledged-implies-handed / completion invariants; the as-found variant is kept as a failing mutant); the real ActorModel<ActorWrapper<..>> is enumerated through the Model API within the same boundary and TLC evaluates the same predicates on every real reachable state and compares every real transition with the spec; state counts of spec and code agree.",
-             note="2-3 actors, <=4 messages, network boundary <=5 envelopes; wrapped actors are scripted senders / recorders", ref="4/C16"),
+             text="The link protocol is model-checked for scripted systems (prefix / acknowledged-implies-handed / completion invariants; the as-found variant is kept as a failing mutant); the real ActorModel<ActorWrapper<..>> is enumerated through the Model API within the same boundary and TLC evaluates the same predicates on every real reachable state and compares every real transition with the spec; state counts of spec and code agree. The same link-wrapped actors are also driven directly with persistent owned states (the way actor::spawn calls handlers) along seeded random schedules; JudgeOrlSteps.tla judges every step against the protocol and the predicates on every state reached.",
+             note="2-3 actors, <=4 messages, network boundary <=5 envelopes; wrapped actors are scripted senders / recorders that may answer what they are handed", ref="4/C16"),
  "C19": dict(technique="TLA+ judge (Explorer.tla) of the answers of a real Explorer instance on loopback, of Path API round trips and of on-demand request sequences; TLC's own exploration of the same graphs as count oracle",
-             text="For generated graphs a real serve() instance is queried over HTTP for every execution up to depth 3 and for non-executions (404), its status endpoint before/after run-to-completion is decoded back to node paths and judged (counts, witness paths), Path::from_actions/encode/into_* are judged on all short action lists incl. disabled/ignored actions, and spawn_on_demand is driven by request sequences (requested pending states get evaluated, nothing unrequested is, completion equals BFS).",
+             text="For generated graphs a real serve() instance is queried over HTTP for every execution up to depth 3 and for non-executions (404), its status endpoint before/after run-to-completion is decoded back to node paths and judged (counts, witness paths), Path::from_actions/encode/into_* are judged on all short action lists incl. disabled/ignored actions, and spawn_on_demand is driven by request sequences (requested pending states get evaluated, nothing unrequested is, completion equals BFS incl. verdicts and frontiers wider than one block). OnDemand.tla's request sequences are replayed into the real checker; OnDemandWorkers.tla (worker loop with channels, queues, blocks, market) is model-checked for 1-2 workers: safety, liveness, and refinement of OnDemand.tla at quiescence.",
              note="HTTP via loopback sockets; fingerprints mapped to nodes through Path::encode; depth <=3", ref="4/C19"),
  "C17": dict(technique="TLA+ trace validation (SpawnRuntime.tla) of real executions of instrumented actors under spawn() on loopback UDP + TLC judge of Id<->address conversions against IdAddr.tla",
              text="Handler invocations of command-interpreter actors run by the real UDP runtime, together with the harness's sends and receipts, are consumed event by event by the trace specification: on_start first and once, every on_msg matched to a datagram in flight with the source Id of its sender, one datagram per Send, timers firing only while armed and not before the lower bound of their latest arming, state threading between handlers, unparsable datagrams ignored. Id <-> SocketAddrV4 is judged on 15 625 structured + random 48-bit ids incl. round trips and injectivity.",
